@@ -387,6 +387,36 @@ fn gen_crop_siblings(rng: &mut Rng, thorough: bool) -> Value {
     json!({"bg": Value::Null, "imgs": imgs, "draws": draws})
 }
 
+/// an image large enough (>= 51200 pixels) for ColorPalette::from_image to sub-sample it inside draw;
+/// few colours in long horizontal runs (repeats in the hundreds), some single pixels
+fn gen_big(rng: &mut Rng) -> Value {
+    let w = 256 + rng.below(70) as usize;
+    let h = (51200 + w - 1) / w + 6 + rng.below(6) as usize; // (h / 6) * 6 * w >= 51200
+    let ncol = 3 + rng.below(4) as usize;
+    let pal = palette(rng, ncol);
+    let mut px: Vec<Rgb> = vec![pal[0]; w * h];
+    for r in 0..h {
+        let mut c = 0;
+        while c < w {
+            let run = match rng.below(4) {
+                0 => 1 + rng.below(4) as usize,
+                1 => 90 + rng.below(60) as usize,
+                2 => w,
+                _ => 5 + rng.below(40) as usize,
+            };
+            let col = if r % 6 != 0 && rng.chance(2, 3) { px[(r - 1) * w + c] } else { *rng.pick(&pal) };
+            for k in 0..run {
+                if c + k < w {
+                    px[r * w + c + k] = col;
+                }
+            }
+            c += run;
+        }
+    }
+    let data: Vec<Value> = px.iter().map(|p| json!([p[0], p[1], p[2], 255])).collect();
+    json!({"bg": Value::Null, "imgs": [{"w": w, "h": h, "data": data, "crop": Value::Null}], "draws": [0, 0]})
+}
+
 /// every pixel transparent, with many different colours and alphas, over an opaque or translucent
 /// background: exercises the bound of the compositing oracle against the exact linear-light mix
 fn gen_alpha_sweep(rng: &mut Rng) -> Value {
@@ -433,6 +463,11 @@ pub fn generate(rng: &mut Rng, n: usize, tier: &str) -> Vec<Value> {
     let thorough = tier == "thorough";
     let mut v = table_cases();
     for i in 0..n {
+        // one image above the sub-sampling threshold of from_image (51200 pixels) per 400 cases
+        if i % 400 == 40 {
+            v.push(gen_big(rng));
+            continue;
+        }
         v.push(match i % 26 {
             7 => gen_wide(rng),
             11 | 20 => gen_alpha_sweep(rng),
